@@ -90,7 +90,8 @@ def graphs(scratch):
     m = sc.tag_by_model(g, [c2, c1], True, bo_start=7)
     out.append(("hand-tagged", m, alphabet(m, c1, c2, True)))
     # chromosomes ordered separately and concatenated: both BO ranges start at 0 (files of <= 3 records on this one)
-    o = sc.tag_by_model(g, [c1, c2], True, restart_per_chain=True)
+    # (and both start at 1200: a region cut from a large ordered graph keeps BO values far above its number of segments)
+    o = sc.tag_by_model(g, [c1, c2], True, bo_start=1200, restart_per_chain=True)
     out.append(("overlapping-BO-ranges", o, alphabet(o, c1, c2, True)))
     return out, t is None
 
